@@ -15,7 +15,10 @@ RULE = ("One case = one fresh regtest node (110 blocks, out of IBD, every fifth 
         "active tip (valid, coinbase overpaying by 1 sat, bad script, missing input, wrong merkle root, duplicated tx, hash above target, bad version, "
         "time too old / too new, wrong nBits, child of an invalid block, repeated invalid block, wrong coinbase height, unknown parent, junk), 10 headers "
         "classes (bad proof of work alone / in the middle, non-continuous, oversized, invalid version, unconnecting ...) and ~37 other classes incl. every "
-        "message type with random bytes, oversized inv/getdata/addr/bloom messages, bad sendcmpct, out-of-range getblocktxn, compact blocks. After "
+        "message type with random bytes, oversized inv/getdata/addr/bloom messages, bad sendcmpct, out-of-range getblocktxn, compact blocks. Four of five "
+        "sessions also contain 1-2 DELAYED-validation scenarios: a sibling of the tip (equal work, stored, not validated) that is invalid in ConnectBlock "
+        "(coinbase +1 sat or a bad signature) followed later by a child from another peer, or headers [P, C] + the invalid child C first + the valid parent P "
+        "later from another peer, with unrelated traffic in between; the block's original sender must be punished when the late verdict arrives. After "
         "each message the sender gets two ProcessMessages/SendMessages rounds, every other peer one SendMessages round, and fDisconnect / "
         "IsDiscouraged(addr) of every peer are recorded. A session is distinct by (peer kinds, message-class sequence) and non-trivial when it "
         "contains at least one transaction message from a peer allowed to send transactions and one punishable or protected-peer misbehaviour step.")
@@ -33,7 +36,9 @@ REQUIRED = ["sessions", "tx_msgs_checked", "punish_expected", "punish_expected:b
             "local_disconnected_not_discouraged", "nonlocal_discouraged", "protected_sent_invalid_block", "protected_sent_bad_pow_headers",
             "tx_from:inbound", "tx_from:outbound-full-relay", "tx_from:manual", "tx_from:addr-fetch", "blocksonly_relay_perm_tx",
             "txcls:tx_valid", "txcls:tx_badsig", "txcls:tx_stripped", "txcls:tx_orphan", "txcls:tx_conflict", "txcls:tx_junk", "txcls:tx_nonstd_version",
-            "txcls:tx_oversize", "txcls:tx_dup", "txcls:tx_truncated", "verdict:consensus", "verdict:invalid_header", "verdict:invalid_prev", "mutated_block"]
+            "txcls:tx_oversize", "txcls:tx_dup", "txcls:tx_truncated", "verdict:consensus", "verdict:invalid_header", "verdict:invalid_prev", "mutated_block",
+            "delayed_invalid_block_punished", "delayed_invalid_block_punished:block_delayed_sibling", "delayed_invalid_block_punished:block_delayed_child",
+            "delayed_protected_clean"]
 LEVEL_TEXT = "held on every generated session: no transaction message led to a disconnect or discouragement, protected peers stayed untouched, every punishable block/headers delivery was punished"
 LEVEL_NOTE = "trusted: the harness' observation of fDisconnect / IsDiscouraged after each round and its message-class labels (block verdicts and bad-PoW headers are cross-checked)"
 
@@ -104,6 +109,37 @@ def check(rec, st):
 
     def finalize(step):
         nonlocal had_tx, had_punish
+        # ---- clause 3, delayed validation: a block stored earlier is found invalid while another message is processed;
+        # its ORIGINAL sender is punished (nothing is demanded for the sender of the message that triggered the validation)
+        for dv in step.get("delayed", []):
+            res = dv["v"].split(":")[0]
+            x = dv["sender"]
+            st.seen("delayed_verdict:" + res)
+            if res not in PUNISHED_VERDICTS or dv.get("same_step"):
+                continue
+            px = peers[x]
+            bx = state.get(x, (False, False))
+            ax = step["obs"].get(x, bx)
+            if protected(px):
+                if ax == (False, False):
+                    st.seen("delayed_protected_clean")
+                continue
+            if bx[0]:
+                st.seen("delayed_sender_already_gone")
+                continue
+            had_punish = True
+            if not ax[0]:
+                st.violation("delayed-invalid-block-sender-not-disconnected",
+                             "a stored block was validated later and found invalid (%s), its sender is still connected after the next SendMessages round" % dv["v"],
+                             {"peer": px, "cls": dv["cls"], "verdict": dv["v"], "after": ax, "trigger_cls": step.get("cls")}, rec["case"])
+            elif not px["local"] and not ax[1]:
+                st.violation("delayed-invalid-block-sender-not-discouraged", "sender of a block found invalid on delayed validation was disconnected but not discouraged",
+                             {"peer": px, "cls": dv["cls"], "verdict": dv["v"], "after": ax}, rec["case"])
+            elif px["local"] and ax[1]:
+                st.violation("local-peer-discouraged", "peer with a local address was discouraged after delayed validation", {"peer": px, "cls": dv["cls"]}, rec["case"])
+            else:
+                st.seen("delayed_invalid_block_punished")
+                st.seen("delayed_invalid_block_punished:" + dv["cls"])
         ine = step.get("in")
         if ine is None or ine.get("skipped"):
             # still: protected peers must not change state
@@ -210,6 +246,8 @@ def check(rec, st):
             cur["in"] = e
         elif ev == "verdict":
             cur["verdict"] = e
+        elif ev == "delayed_verdict":
+            cur.setdefault("delayed", []).append(e)
         elif ev == "obs":
             cur["obs"][e["p"]] = (e["disc"], e["dscg"])
         elif ev == "end":
